@@ -184,6 +184,8 @@ class Recorder:
                 data = build(st['items'])
                 self.items_by[data] = st['items']
                 self.host.inject(data, src=st.get('src', '10.0.0.9'))
+            elif op == 'rawrecv':
+                self.host.inject(bytes.fromhex(st['data']), src=st.get('src', '10.0.0.9'))
             elif op == 'lookup':
                 if st.get('bg'):
                     from zeroconf.asyncio import AsyncServiceInfo
@@ -224,6 +226,28 @@ class Recorder:
 
 
 # ------------------------------------------------------------------------------ generation
+def gen_hostile(rng: random.Random, sid: str) -> dict:
+    """A lookup that is told, while it waits, that the service lives on a host whose name cannot be written back: a label that is
+    not UTF-8 (n octets on the wire, 3 n when decoded with replacement characters and encoded again).  It cannot ask for that
+    host's addresses; it still returns, unsuccessful, at its timeout."""
+    t0 = rng.choice([1000, 5000])
+    timeout = rng.choice([500, 3000, 3000])
+    n = rng.choice([22, 30, 63])
+    tgt = bytes([n]) + bytes([rng.choice([0xff, 0xfe, 0xc0])]) * n + b'\x05local\x00'
+    rd = bytes([0, 0, 0, 0, 0, 80]) + tgt
+    rec = wire.enc_name(INST) + bytes([0, 33, 0x80, 1]) + (120).to_bytes(4, 'big') + len(rd).to_bytes(2, 'big') + rd
+    data = bytes([0, 0, 0x84, 0, 0, 0, 0, 1, 0, 0, 0, 0]) + rec
+    steps: List[dict] = [{'op': 'at', 't': 0}]
+    # (the record arrives while the lookup waits: what a lookup asks that *starts* from such a record in the cache is not judged --
+    # the contract's vocabulary has no identity for it)
+    steps += [{'op': 'at', 't': t0}, {'op': 'lookup', 'timeout': timeout, 'forced': rng.choice(['none', 'QU', 'QM']), 'sp': 0},
+              {'op': 'at', 't': t0 + rng.choice([1, 100, 250])}, {'op': 'rawrecv', 'data': data.hex()}]
+    if rng.random() < 0.5:
+        steps += [{'op': 'at', 't': t0 + 300}, {'op': 'recv', 'items': [{'id': 3, 'ttl': 4500, 'sp': 0}]}]
+    steps.append({'op': 'at', 't': t0 + timeout + 2000})
+    return {'id': sid, 'seed': rng.randint(0, 10 ** 9), 'steps': steps, 'rand': None}
+
+
 def gen_lookup(rng: random.Random, sid: str, thorough: bool = False) -> dict:
     srv = rng.choice([1, 1, 2])
     host = VOCAB[srv][4]
